@@ -20,20 +20,20 @@ import (
 
 // World is a pair of timelines A and B sharing Prefix records.
 type World struct {
-	H              int
-	Prefix         int
-	Size           map[string]int
-	Name           string
-	VKey           string
-	priv           ed25519.PrivateKey
-	keyHash        uint32
-	leaves         map[string][]refmerkle.Hash
-	mu             sync.Mutex
-	memo           map[string]refmerkle.Hash
-	heads          map[string]HeadLabel // signed note bytes -> label
-	headBytes      map[HeadLabel][]byte
-	otherPriv      ed25519.PrivateKey // a second key, for wrong-key signatures
-	rootMemo       map[string]refmerkle.Hash
+	H         int
+	Prefix    int
+	Size      map[string]int
+	Name      string
+	VKey      string
+	priv      ed25519.PrivateKey
+	keyHash   uint32
+	leaves    map[string][]refmerkle.Hash
+	mu        sync.Mutex
+	memo      map[string]refmerkle.Hash
+	heads     map[string]HeadLabel // signed note bytes -> label
+	headBytes map[HeadLabel][]byte
+	otherPriv ed25519.PrivateKey // a second key, for wrong-key signatures
+	rootMemo  map[string]refmerkle.Hash
 }
 
 // HeadLabel is the ground truth about a tree-head message.
